@@ -59,6 +59,9 @@ CLAIMED = {
     "C14": ("Lean 4 theorems over an executable model of find_nearest_index / linspace / Interp1D-2D-3D-ND / InterpolationSpeedGradeModel (any linearly ordered field) + bit-exact correspondence run against the real code on random grids, tables, points and every speed/grade unit",
             "Proof: cell lookup brackets the target (binary-search invariants), the speed/grade prediction is between the four corner rates, exact on grid points, equal to the bilinear formula of every closed cell containing the input (continuity across borders), clamps outside inputs to the nearest grid boundary and never fails for >= 2 bins; the generic interpolators reproduce multilinear data exactly, N-D agrees with 1-D/2-D/3-D, and points outside are rejected. The model is tied to the Rust code by a bit-exact differential run (same operation order) over random uniform and non-uniform grids, all dimensions, validated and raw paths, every unit combination and the bundled random-forest models. Defects of the code (one-point axes accepted by the constructors and then panicking in find_nearest_index — speed/grade model and Interp2D/3D —, raw linear methods do not reject outside points, InterpND::new panics on a short grid vector) are machine-checked counterexamples and known findings.",
             "§5 C14"),
+    "C17": ("Lean 4 theorems over an executable model of MultiSet (mixed-radix counter, kept partial: panic / divergence are explicit outcomes) and of GridSearchPlugin::process + json_array_op/flatten over an insertion-ordered JSON model; textual correspondence run (key order included) against the real plugin, MultiSet and apply_input_plugins; independent oracle on the real outputs",
+            "Proof: for every JSON value the plugin (with its guard) neither panics nor diverges and computes a total function; for m>=1 axes of sizes n_i>=1 the enumeration terminates within fuel prod+1, has length prod n_i, no index combination twice, every in-range combination, k-th item = mixed-radix digits of k (first axis fastest; val increases by one per next); each generated query = original minus grid key (swap_remove order) overlaid with the chosen options, characterised as a map by 'last writer wins' (scalar under the field's name, object merged entry by entry, later axes override), untouched fields kept, no grid key left (proved from the textual recursion guard), pass-through without grid section, guard rejects exactly the degenerate sections, recursion guard stated as the text test it is; pipeline flatten yields exactly the expansion. Distinctness of the generated queries *as values* is proved for scalar axes with pairwise different options; with colliding option keys equal queries are possible by the merge semantics (witness theorem), which is read as outside 'none twice'. JSON objects are modelled as association lists with the serde_json invariant 'keys unique' as a hypothesis where needed.",
+            "§5 C17, A.4"),
 }
 
 NOT_YET = {
